@@ -432,8 +432,8 @@ impl Scenario for C18 {
                 9 => Op::new("sp_curve", &[slot]),
                 10 => Op::new("sp_curve_bufs", &[slot]),
                 11 | 12 => Op::new("sp_borrowed", &[slot, if rng.chance(1, 4) { 0.0 } else { 1.0 }]),
-                13 => Op::new("sp_duration", &[slot]),
-                14 => Op::new("sp_end_time", &[slot]),
+                13 => Op::new("sp_duration", &[slot, if rng.chance(1, 3) { 2.0 } else { 1.0 }]),
+                14 => Op::new("sp_end_time", &[slot, if rng.chance(1, 3) { 2.0 } else { 1.0 }]),
                 15 => Op::new("sp_push", &[slot, *rng.pick(&[-1.0, -1.0, 1.0, 2.0, 3.0, 0.0]), rng.range(0, 512) as f64, rng.range(0, 384) as f64]),
                 16 => Op::new("sp_pop", &[slot]),
                 17 => Op::new("sp_set", &[slot, rng.below(6) as f64, rng.range(0, 512) as f64, rng.range(0, 384) as f64]),
@@ -535,6 +535,13 @@ impl Scenario for C18 {
                             continue;
                         }
                         st.inc("ops.compute-borrowed");
+                        // the conversions and the scalar accessors are part of "whichever API"
+                        let o = c.to_owned_curve();
+                        let back = o.as_borrowed_curve();
+                        // (bit-wise: a path may legitimately hold NaN coordinates, e.g. for an infinite requested length)
+                        if snap(o.path(), o.lengths()) != snap(c.path(), c.lengths()) || o.dist().to_bits() != c.dist().to_bits() || snap(back.path(), back.lengths()) != snap(c.path(), c.lengths()) {
+                            return Err(Violation::new("C18/differs-from-fresh-buffers", "conversion", format!("op #{i}: BorrowedCurve::to_owned_curve / Curve::as_borrowed_curve / dist() disagree with the borrowed curve they were made from")));
+                        }
                         snap(c.path(), c.lengths())
                     };
                     if pts.len() >= 20 {
@@ -642,12 +649,21 @@ impl Scenario for C18 {
                             let vel = slider_mut(&mut slot.obj).velocity;
                             let dist = want.lengths.last().map_or(0.0, |b| f64::from_bits(*b));
                             let want_d = spans * dist / vel;
+                            let nobufs = op.arg(1) == 2.0;
                             let got_d = if k == "sp_duration" {
                                 st.inc("ops.slider-duration_with_bufs");
-                                slider_mut(&mut slot.obj).duration_with_bufs(&mut bufs)
+                                if nobufs {
+                                    slider_mut(&mut slot.obj).duration()
+                                } else {
+                                    slider_mut(&mut slot.obj).duration_with_bufs(&mut bufs)
+                                }
                             } else {
                                 st.inc("ops.hitobject-end_time_with_bufs");
-                                slot.obj.end_time_with_bufs(&mut bufs) - 1000.0
+                                if nobufs {
+                                    slot.obj.end_time() - 1000.0
+                                } else {
+                                    slot.obj.end_time_with_bufs(&mut bufs) - 1000.0
+                                }
                             };
                             // end time adds and subtracts the start time: compare with the same arithmetic
                             let want_cmp = if k == "sp_duration" { want_d } else { (1000.0 + want_d) - 1000.0 };
